@@ -268,6 +268,8 @@ def check(facts, rep, tier, cfg):
     # ---- R7 after an invalid frame the teardown cannot be held up by a Connect still buffered behind it
     import rules_c07 as _c07
     _c07.check_handoff(facts, rep, crate, "C10.R7")
+    rep.rule("C10.S1", "S1: every message taken off the outbound queue is handed to the WebSocket sink by the send loop (= C02.R2): the frames this property relies on are not dropped, deduplicated or reordered on the way out")
+    import_outbound_queue_rule(facts, rep, tier, cfg, "C10.S1")
     rep.rule("C10.S7", "who-may: the functions that touch the critical resources behind this property are those of the reference tree (flow table, closed flag, per-stream / datagram / outbound queues, last-pong timestamp, client id maps, shared TLS identity)")
     import whomay
     whomay.check(facts, rep, "C10.S7", "C10")
